@@ -208,8 +208,15 @@ fn run_unit(cfg: Cfg, seeds: &[Seed], tier: Tier, u: Unit) -> CatOut {
 pub fn worlds() -> Vec<Cfg> {
     let mut v = vec![];
     for medium in [Medium::Ethernet, Medium::Ip, Medium::Ieee802154] {
-        for variant in [0u8, 1] {
-            v.push(Cfg { medium, variant, join_154: false });
+        for variant in [0u8, 1, 2] {
+            // built through the JSON form: fields the C03 harness adds later take their defaults
+            let j = json!({"medium": super::rig::medium_name(medium), "variant": variant, "join_154": false});
+            if let Some(c) = Cfg::from_json(&j) {
+                // a variant the catalogue does not know yet simply fails to set up
+                if World::new(c).is_ok() {
+                    v.push(c);
+                }
+            }
         }
     }
     v
